@@ -1,85 +1,108 @@
-"""Per-property claim texts for MANIFEST.json (kept next to the code that decides them; updated as proofs land)."""
+"""Per-property claim texts for MANIFEST.json (kept next to the code that decides them)."""
 
 NOT_APPLICABLE = {}
 
-GEN = "model regenerated from the Go source by go2lean on every run"
-CORR = "hand-written glue tied to the code by the correspondence check (same operation lines on the real code, the Lean model and the Lean specification; three-way diff)"
+TB = ("Trusted: Lean 4.33 kernel (axioms propext, Classical.choice, Quot.sound only, audited per theorem on every run), Mathlib's "
+      "definitions of ZMod and the elliptic-curve group; the go2lean translator's reading of Go (cross-checked on raw limbs by the "
+      "correspondence families); the correspondence check is differential testing. ")
 
 CLAIMS = {
  "C01": dict(
-  technique="Lean 4 proof: ladder invariant by induction over the bit list on the regenerated add/double formulas; correspondence for the glue",
-  text="Kernel-checked: for every valid projective triple P (any representation) and every bit string, the ladder over the generated complete addition/doubling at the limb implementation yields [k]P in Mathlib's elliptic-curve group over ZMod p (theorems C01_ladder, C01, C01_nil), resting on the proved limb-level field laws (Montgomery mul/square/add/sub/neg, cmove, zero/equality tests). The scalar-side premises of C01 (IsOne, Bits) are discharged in C13/C14 as far as proved there; Multiply itself is additionally compared with an independent affine double-and-add on 24 (thorough 1500) edge-heavy (P,k) pairs per run.",
-  note="Trusted: Lean kernel + Mathlib's definition of the group; go2lean's reading of Go; Hand.Element glue (nil/IsOne/loop) and Scalar.Bits model are tied by correspondence, the loop bound of Bits by a regenerated fact; FromMontgomery (scalar) correctness by correspondence until its limb proof lands."),
+  technique="Lean 4 proof: ladder invariant by induction over the bit list on the regenerated complete add/double formulas at the proved limb-level field; correspondence for the API glue",
+  text="Kernel-checked (C01, C01_ladder, C01_full, C01_nil): for every valid projective triple P in any representation and every canonical scalar k, "
+       "the model of Multiply returns a valid point equal to (value of k) • P in Mathlib's elliptic-curve group over ZMod p; nil scalar gives the identity. "
+       "The premises about Bits and IsOne are the proved C14/C13 theorems; the formulas and FromMontgomery are regenerated from the source on every run.",
+  note=TB + "Hand-modelled and tied by the PT.mul family (raw limbs of the result compared, edge scalars x representations, also against an independent affine double-and-add): "
+       "nil handling, the IsOne shortcut and the 256-step loop of multiply."),
  "C02": dict(
   technique="Lean 4 proof: Renes-Costello-Batina completeness against Mathlib's WeierstrassCurve.Affine.Point, bridged to the regenerated step sequences by ring; limb-level field laws proved",
-  text="Kernel-checked for all valid operands in all projective representations and both aliasing patterns: generated addProjectiveComplete/doubleProjectiveComplete/negate compute the group law of y^2=x^3+7 over ZMod p (p proved prime by checked Pratt certificates; no 2-torsion by kernel evaluation), results stay valid, nil arguments are no-ops, arguments are not written (cell analysis).",
-  note="Trusted: Lean kernel, Mathlib; go2lean (cell-based symbolic execution, one specialisation per alias pattern) cross-checked by PT.* correspondence on raw projective triples including Z not in {0,1} and (0:Y:0); glue in Hand.Element (nil handling, identity shortcut, copy in Subtract) tied by correspondence."),
+  text="Kernel-checked for all pairs of valid operands in all projective representations and both aliasing patterns (a separate generated specialisation for e.Add(e)): "
+       "add, double, negate, subtract compute the group law of y^2=x^3+7 over ZMod p (p prime by checked Pratt certificates; no 2-torsion), results stay valid, "
+       "nil arguments are no-ops, arguments are never written.",
+  note=TB + "Hand-modelled glue (nil handling, the copy inside Subtract) tied by the grouplaw family on raw triples incl. Z not in {0,1}, (0:Y:0), P=+-Q."),
  "C03": dict(
-  technique="Lean executable SEC1 specification vs decoders: correspondence with edge-class generator; limb-level model of the decoders (proof of the decoder chain in progress)",
-  text="Every decoder (Decode, DecodeCompressed, DecodeUncompressed, DecodeCoordinates, DecodeHex, UnmarshalBinary) is modelled at the limb level from the generated Reduce/ToMontgomery/SqrtRatio code and compared, together with the independent Lean specification Spec.Sec1 (exact acceptance set, error kind, receiver unchanged on error), with the real code on structured and malformed inputs: all 256 prefixes, lengths 0..70, x>=p on-curve-after-reduction, y+p aliases, hybrid prefixes, wrong parity, off-curve.",
-  note="Acceptance-iff theorem not yet kernel-checked: level of this check is the differential comparison against the executable specification plus the proved field laws it rests on."),
+  technique="Lean 4 proof: limb-level decoder models refine an executable SEC1 acceptance specification (Reduce borrow chain, ToMontgomery, SqrtRatio chain proved); correspondence for length/prefix logic",
+  text="Kernel-checked (decode_spec, decode_accepts_iff and one theorem per decoder): for every receiver and every byte string the decoder accepts iff the SEC1 specification does "
+       "(00; 02/03||x with x<p and x^3+7 square; 04||x||y canonical and on the curve; nothing else), returns the specified point as a valid element, and on rejection returns "
+       "invalidPointEncoding with the receiver unchanged.",
+  note=TB + "The decoders' length switch, prefix and parity logic are hand models tied by the decode family (all 256 prefixes, lengths 0..70, x>=p aliases, y+p aliases, hybrid prefixes, wrong parity, off-curve)."),
  "C04": dict(
-  technique="Lean executable SEC1 specification vs encoders on rescaled representations: correspondence; limb-level model of affine/Encode",
-  text="Encode/EncodeUncompressed/XCoordinate/Hex/MarshalBinary compared with the specification encoders of the abstract point for lambda-rescaled representations and every identity representation; round trip through the decoder specification.",
-  note="Representation-independence theorem for Encode requires the inversion-chain law (in progress); until then by correspondence."),
+  technique="Lean 4 proof: encoders of any projective representation equal the SEC1 encoding of the abstract point; round trips by composition with the C03 theorem",
+  text="Kernel-checked: Encode/EncodeUncompressed are the SEC1 compressed/uncompressed forms of the abstract point (00 for the identity) for every valid triple, hence identical for all "
+       "representations of a group element; Decode(Encode(P)) and Decode(EncodeUncompressed(P)) succeed and give the same group element; XCoordinate is a view of Encode.",
+  note=TB + "Hex/MarshalBinary wrappers and the byte assembly are hand models tied by the enc and roundtrip families (re-scaled representations, every identity representation, points with x just below p)."),
  "C05": dict(
-  technique="Lean 4 proof: cross-multiplied comparison decides equality in the group for all representations (integral-domain argument), on the regenerated isEqual",
-  text="Kernel-checked: Equal returns 1 iff the operands are the same element of Mathlib's group, else 0, is symmetric, and IsIdentity holds exactly for the identity, for all valid projective triples at the limb implementation (equality/zero tests proved from the bit tricks without bv_decide).",
-  note="Trusted: Lean kernel, Mathlib, go2lean; PT.eq correspondence on rescaled pairs, P/-P, endomorphism pairs sharing y, identity representations."),
+  technique="Lean 4 proof: cross-multiplied comparison decides equality in the group for all representations, on the regenerated isEqual (both alias patterns)",
+  text="Kernel-checked: Equal returns 1 iff the operands are the same element of Mathlib's group, else 0, is symmetric, and IsIdentity holds exactly for the identity, for all valid projective triples.",
+  note=TB + "eq family: re-scaled pairs, P/-P, endomorphism pairs sharing y, line mates (x1+y1=x2+y2), identity representations."),
  "C06": dict(
-  technique="Lean 4 proof of the Fiat limb functions (rfl tie to a structured Montgomery reference + generic correctness theorem); correspondence for API glue, inversion chain and Pow",
-  text="Kernel-checked for the scalar field: generated Mul, Square, Add, Sub are exact modulo n on canonical limbs and keep canonicity (all carry patterns, all operands; aliasing is sound because the translator refuses any read after the first output write). Invert (293-step chain), SetUInt64/ToMontgomery, Pow (through math/big), constants and nil conventions are compared with exact integer arithmetic by correspondence on edge-heavy operands.",
-  note="Pow is modelled with exact modular powering (math/big trusted). Chain exponent proof and To/FromMontgomery limb proofs pending: those links are by correspondence."),
+  technique="Lean 4 proof: generated Fiat scalar functions = structured Montgomery reference by rfl, reference correct for any valid modulus; chain exponent evaluated in the kernel; Fermat",
+  text="Kernel-checked over canonical limbs and ZMod n: Add, Subtract, Multiply, Square exact and canonical (aliasing is sound: the translator refuses reads after the first output write); "
+       "Invert = x^-1 (0 -> 0) through the regenerated 293-step chain; SetUInt64 for every 64-bit value; Zero/One/MinusOne; nil conventions; Pow = s^t.",
+  note=TB + "Pow goes through math/big, modelled as exact modular powering (assumed). API wrappers tied by the scarith/sfarith families."),
  "C07": dict(
-  technique="Lean executable specification of scalar encoding/decoding vs code: correspondence with window-around-n generator; Reduce borrow chain regenerated",
-  text="Encode/Decode/Hex/DecodeHex/MarshalBinary/UnmarshalBinary compared with big-endian integers < n: exact acceptance, distinct error kinds, stored value, round trips; generator covers n-1, n, n+1, 2^256-1, single-limb and single-bit neighbours of n, all lengths 0..70.",
-  note="Reduce/ToMontgomery/FromMontgomery theorems pending; by correspondence."),
+  technique="Lean 4 proof: scalar Encode/Decode refine big-endian integers below n (Reduce borrow chain and Montgomery conversions proved)",
+  text="Kernel-checked: Encode is the 32-byte big-endian canonical value; Decode accepts exactly 32-byte strings below n and stores that integer, rejects the empty input, other lengths and values >= n "
+       "with their distinct errors; both round trips; hex variants agree.",
+  note=TB + "Error ladder and hex wrappers are hand models tied by the scenc/sfenc families (window around n, all lengths 0..70)."),
  "C08": dict(
-  technique="Lean executable RFC 9380 specification (independent, textbook form) vs code, including chosen expander outputs through the real HashToGroup body; proofs of the group-law part",
-  text="HashToGroup/EncodeToGroup compared with hash_to_curve/encode_to_curve computed by an independent Lean implementation of RFC 9380 (expand_message_xmd incl. oversize DST, hash_to_field, textbook SSWU, E.1 isogeny, addition on secp256k1) for messages/DSTs of all length classes, and - by overriding the expander output inside the real functions - for chosen (u0,u1) including u1=+-u0 and the exceptional u.",
-  note="SHA-256 is a parameter of the specification; the Lean SHA-256 used by the driver is compared with crypto/sha256. Refinement theorems for expander/SSWU pending."),
+  technique="Lean 4 proof: refinement of the expander, wide reduction, regenerated SSWU and isogeny, and complete addition to an independent RFC 9380 specification, for every hash with 32-byte output",
+  text="Kernel-checked for every hash function H with 32-byte output, every message, every non-empty DST of any length: HashToGroup/EncodeToGroup return a valid element whose abstract point is "
+       "hash_to_curve/encode_to_curve of RFC 9380 (expand_message_xmd incl. the oversize rule, hash_to_field, textbook SSWU, E.1 isogeny, addition in the group); an empty DST panics.",
+  note=TB + "SHA-256 is a parameter of the theorems (the driver's Lean SHA-256 is sampled against crypto/sha256). xmd.go/group.go composition is a hand model tied by the xmd, h2c and chosenu families "
+       "(the latter pushes chosen expander outputs through the real function bodies)."),
  "C09": dict(
-  technique="Lean executable specification OS2IP(expand_message_xmd) mod n vs code; correspondence on chosen 48-byte strings",
-  text="HashToScalar compared with hash_to_field over n; the wide reduction is compared with OS2IP mod n on all-ones, maximal a/b, multiples of n and random 48-byte strings.",
-  note="Wide-reduction theorem pending; by correspondence."),
+  technique="Lean 4 proof: HashToScalar refines OS2IP(expand_message_xmd) mod n; 48-byte wide reduction proved for all inputs",
+  text="Kernel-checked for every hash with 32-byte output: HashToScalar returns the canonical scalar OS2IP(expand_message_xmd(msg, DST, 48)) mod n; the wide reduction is exact on all 2^384 inputs; empty DST panics.",
+  note=TB + "Same hash/expander assumptions as C08; tied by the h2s and sfh2f families."),
  "C10": dict(
-  technique="Lean concrete and abstract state machines over pools; histories run on real code, concrete machine and abstract machine; per-operation refinement theorems from C01/C02/C05",
-  text="Random histories (40 and 400 steps, 40% aliased choices, nil arguments, decoders, hashing) over pools of 4 elements and 4 scalars: after every step every variable's Encode/IsIdentity/Equal/IsZero and raw limbs agree between the real code, the limb-level machine and the abstract machine on points and integers mod n.",
-  note="The refinement theorem over all histories is assembled only for the operations whose per-op theorem is proved (group law, equality, ladder); the remaining operations are by correspondence."),
+  technique="Lean 4 proof: invariant + refinement of a concrete pool machine (built from the API model) to an abstract machine on points and integers mod n, by induction over the operation list",
+  text="Kernel-checked (step_refines, obs_refines, history_refines, always_valid, non_receivers_unchanged, copy_independent): for every finite history of API calls from the initial pools, with any "
+       "receiver/argument aliasing, error tags and all observations (Encode, IsIdentity, pairwise Equal, scalar Encode, IsZero, Equal) after every step equal those of the abstract machine; every element stays a "
+       "valid curve point; a step changes no variable but its receiver; copies are independent.",
+  note=TB + "The machine's steps are the API models of C01-C09/C13/C14 (same hand-modelled glue); tied by the history (40-step) and historylong (400-step) families observed after every step in Go and in both machines."),
  "C11": dict(
-  technique="Lean executable textbook SSWU / isogeny specification vs regenerated straight-line code; chosen u including the three exceptional values",
-  text="SSWU and the 3-isogeny (generated from mapping.go) compared with the RFC 9380 section 6.6.2 textbook map and E.1 rational map on chosen field elements including u = 0, +-sqrt(-1/Z), and through EncodeToGroup with chosen expander output; results checked on-curve by the specification decoder.",
-  note="Equivalence theorems pending; by correspondence."),
+  technique="Lean 4 proof: regenerated SSWU equals the textbook map on every field element via a determining relation; regenerated isogeny equals the E.1 map; image on the curve by a checked polynomial certificate",
+  text="Kernel-checked: for every field element u (the exceptional inputs 0 and +-sqrt(-1/Z) included, no side condition) SSWU returns the RFC 9380 6.6.2 point with sgn0(y)=sgn0(u); the 3-isogeny is the E.1 rational map; "
+       "the composition is total, lands on secp256k1 and is valid.",
+  note=TB + "map and chosenu families (exceptional u first)."),
  "C12": dict(
-  technique="Lean 4 proof: generated Fiat Mul/Square/Add/Sub/Opp = structured reference by rfl, reference correct for any valid Montgomery modulus; bit tricks proved; lawful-field instance",
-  text="Kernel-checked: the generated base-field Mul, Square, Add, Sub, Opp are exact in F_p on all canonical limb tuples and keep values canonical; IsZero, Equals, CMove (0/1) proved; the limb implementation is a lawful implementation of ZMod p (Secp.Proofs.LimbLawful). Invert, SqrtRatio, Sgn0, Bytes, FromBytesWithReduce, HashToFieldElement, To/FromMontgomery compared with exact arithmetic on 4000 (thorough 250000) edge-heavy operand tuples.",
-  note="Chains, To/FromMontgomery and byte functions: by correspondence until their proofs land."),
+  technique="Lean 4 proof: generated Fiat functions = structured reference by rfl, reference correct for any valid Montgomery modulus; bit tricks, chains, byte conversion proved; lawful-field instance",
+  text="Kernel-checked for all canonical limb tuples: Add, Sub, Mul, Square, Neg exact in F_p and canonical; Invert (270-step chain) = x^-1; SqrtRatio meets the RFC 9380 F.2.1.2 contract; Sgn0, IsZero, Equals, CMove, "
+       "FromBytesWithReduce, Bytes, HashToFieldElement, To/FromMontgomery; canonical forms are unique; p is prime.",
+  note=TB + "Thin method wrappers are hand models calling the generated code, tied by the field family (4000 / thorough 250000 edge-heavy operand tuples, near-equal pairs)."),
  "C13": dict(
-  technique="Lean bit-trick proofs (IsNonZero/IsZero/Equal/Selectznz) + correspondence for LessOrEqual and CSelect over all condition-word classes",
-  text="Equal/IsZero/IsOne/LessOrEqual/CSelect compared with integer semantics for edge-heavy pairs and condition words {0,1,2,3,2^32,2^63,2^64-1,random}; the underlying bit tricks are kernel-checked.",
-  note="LessOrEqual theorem needs FromMontgomery correctness (pending)."),
+  technique="Lean 4 proof: bit-trick lemmas and Montgomery conversion give LessOrEqual = integer order, CSelect for every condition word",
+  text="Kernel-checked: Equal/IsZero/IsOne decide equality of canonical values; LessOrEqual is the integer order of the canonical values; CSelect returns u for cond = 0 and v for every non-zero 64-bit condition word; nil cases.",
+  note=TB + "cmp/sfcmp families (condition words 0,1,2,3,2^32,2^63,2^64-1,random; raw-limb patterns)."),
  "C14": dict(
-  technique="Regenerated loop-bound fact + correspondence of Bits against the canonical value",
-  text="Bits compared with the binary expansion of the canonical value for scalars with bit 255 set, powers of two, n-1; the loop bound and body of Bits are read from the source on every run (theorem bits_loop_covers_all_positions).",
-  note="bits_spec theorem pending."),
+  technique="Lean 4 proof: Bits = binary expansion of the canonical value, over the regenerated loop header/body and FromMontgomery",
+  text="Kernel-checked: Bits returns exactly 256 entries, entry i is bit i of the canonical value, and their weighted sum is the value; the loop bound and body are read from the source on every run.",
+  note=TB + "bits family (bit 255 set, powers of two, k*2^64, n-1)."),
  "C15": dict(
-  technique="Static write analysis regenerated into a Lean fact (no write through a slice parameter) + run-time backing-array comparison in 7 layouts",
-  text="Facts.sliceParamWrites = [] is re-derived from the source on every run and checked in Lean; at run time every API function taking slices is called on slices carved out of sentinel-filled arrays (interior, len<cap, len=cap) and the whole backing arrays are compared; returned buffers are mutated and re-read; pointer arguments compared.",
-  note="The Go allocator is not modelled: fresh means not aliasing any buffer the harness knows."),
+  technique="Lean 4 proof over a heap/slice model of vetDSTXMD (frame theorem for every heap and layout) + regenerated static write analysis + run-time backing-array comparison",
+  text="Kernel-checked: in the Go-slice model of vetDSTXMD every pre-existing buffer is unchanged and the result is a new buffer, for every heap, offset, length, capacity and spare-capacity content; "
+       "the regenerated analysis shows no statement reachable from a slice-taking API function can write through a slice parameter. Run time: every such function on slices carved out of "
+       "sentinel-filled arrays in 7 layouts, backing arrays compared before/after, returned buffers mutated and sources re-read.",
+  note=TB + "Partial: the Go allocator and escape analysis are not modelled ('fresh' = not aliasing any buffer the model knows); h.Write is taken to only read its argument."),
  "C16": dict(
-  technique="Lean footprint model (race freedom and determinism for every interleaving by induction) + extracted facts + race detector run",
-  text="see explanation in the evidence: model proof plus -race run with 8 goroutines per scenario.",
-  note="Go memory model and scheduler are modelled, not verified."),
+  technique="Lean 4 proof about a footprint model (race freedom and solo-run equivalence for every interleaving, induction over the schedule) instantiated with regenerated facts + race-detector run",
+  text="Model-level theorem plus run-time evidence: under the footprint discipline (writes only to the receiver or fresh memory) no interleaving has a conflicting pair and every thread computes its solo result; "
+       "the discipline's premises (no write to package variables, no write through slice parameters, arguments never rebound) are re-derived from the source on every run. The harness built with -race runs 8 goroutines "
+       "per scenario over every API function with shared arguments and compares with sequential results.",
+  note=TB + "The Go memory model and scheduler are modelled, not verified; the race detector only observes executed schedules. Level 'other' for that reason."),
  "C17": dict(
-  technique="Lean linker/registry model over the extracted import closure + build and run of a minimal main",
-  text="see explanation in the evidence.",
-  note="Go linker and init order are modelled, not verified."),
+  technique="Lean 4 proof about a linker/registry model over the regenerated import closure (intersection over build tags) + build and run of a minimal main per tag",
+  text="Model-level theorem plus run-time evidence: every program linking the package links the implementation of every hash the package requests from the crypto registry, because that implementation is in the "
+       "package's own import closure under every build-tag configuration; a plain main importing only the package is built and run per tag and its outputs compared with the executable RFC specification.",
+  note=TB + "Go linker and package initialisation order are modelled, not verified. Level 'other' for that reason."),
  "C18": dict(
-  technique="Lean stream model of Random + correspondence with a scripted entropy source substituted for crypto/rand.Reader",
-  text="Random modelled as a function of the byte stream (ReadFull = 32 bytes or failure); compared with the real function under scripted streams: blocks 0 and n skipped, blocks >= n reduced, short streams panic, any read chunk size.",
-  note="random_spec theorem pending (needs Reduce/ToMontgomery)."),
+  technique="Lean 4 proof over a byte-stream model of Random (rejection loop, Reduce, ToMontgomery proved) + correspondence with a scripted entropy source",
+  text="Kernel-checked: for every byte stream Random returns the first 32-byte block whose value mod n is non-zero, reduced and canonical, never zero, and panics exactly when the stream ends before such a block; one conditional subtraction suffices.",
+  note=TB + "crypto/rand.Reader and io.ReadFull are modelled as a byte stream; tied by the rnd family (blocks 0, n, n+k, 2^256-1, short reads, early EOF)."),
  "C19": dict(
-  technique="Static schedule extraction (go2lean) into Lean + theorem of scalar-independence + recorded traces on an instrumented scratch copy",
-  text="Kernel-checked on the regenerated schedule: Multiply has exactly three control-flow alternatives (nil, one, full ladder), the full ladder is 24 + 256 x 308 function entries independent of the scalar; recorded traces for 0, 2, 3, n-1, n-2, 2^255, sparse, dense and random scalars equal the extracted schedule.",
-  note="Granularity: function entries of internal/field and internal/scalar; instruction-level timing out of reach."),
+  technique="Lean 4 proof over the statically extracted schedule of field operations of multiply + recorded traces from an instrumented scratch copy",
+  text="Kernel-checked on the regenerated schedule: both branches of a ladder iteration perform the same list of calls into the field/scalar packages, so the trace of Multiply is the same for every scalar that does not take the "
+       "documented IsOne shortcut (78872 calls). Recorded traces of an instrumented copy are compared with each other and with the extracted schedule.",
+  note=TB + "Granularity is function entries of internal/field and internal/scalar; instruction-level timing is out of reach of this technique."),
 }
